@@ -510,6 +510,13 @@ func clip(s string) string {
 
 type Equiv struct {
 	Types Resolver
+	// Strict compares presence literally: an empty flattened sub-object is not
+	// the same as an absent one. Used where two decodes of the same value are
+	// compared with each other (C03), not a decode with the original (C01).
+	Strict bool
+	// DecodeJSON, when set, turns the JSON form of an Any payload into a message
+	// so that two payloads spelled differently are compared by value.
+	DecodeJSON func(typeName string, data []byte) (protoreflect.Message, error)
 }
 
 func emptyFlat(m protoreflect.Message) bool {
@@ -524,11 +531,11 @@ func emptyFlat(m protoreflect.Message) bool {
 	return empty
 }
 
-func has(m protoreflect.Message, f protoreflect.FieldDescriptor) bool {
+func (q *Equiv) has(m protoreflect.Message, f protoreflect.FieldDescriptor) bool {
 	if !m.Has(f) {
 		return false
 	}
-	if IsFlatten(f) && emptyFlat(m.Get(f).Message()) {
+	if !q.Strict && IsFlatten(f) && emptyFlat(m.Get(f).Message()) {
 		return false
 	}
 	return true
@@ -546,7 +553,7 @@ func (q *Equiv) Diff(a, b protoreflect.Message, path string) (class, detail stri
 		fa := md.Fields().Get(i)
 		fb := bfields.ByNumber(fa.Number())
 		p := path + "." + string(fa.Name())
-		ha, hb := has(a, fa), has(b, fb)
+		ha, hb := q.has(a, fa), q.has(b, fb)
 		if ha != hb {
 			return "presence:" + kindClass(fa), fmt.Sprintf("%s: set=%v before, set=%v after", p, ha, hb)
 		}
@@ -652,6 +659,14 @@ func (q *Equiv) anyDiff(a, b protoreflect.Message, p string) (string, string) {
 	tb, pb, jb := AnyParts(b)
 	if ta != tb {
 		return "value:any-type", fmt.Sprintf("%s: any type %q vs %q", p, ta, tb)
+	}
+	if ja != nil && jb != nil && q.DecodeJSON != nil {
+		ia, e1 := q.DecodeJSON(ta, ja)
+		ib, e2 := q.DecodeJSON(tb, jb)
+		if e1 != nil || e2 != nil {
+			return "value:any-json", fmt.Sprintf("%s: any j5_json does not decode: %v / %v", p, e1, e2)
+		}
+		return q.Diff(ia, ib, p+".<any>")
 	}
 	if ja != nil && jb != nil {
 		va, e1 := jx.Parse(ja)
